@@ -13,7 +13,7 @@ import (
 
 func init() {
 	register(&PropSpec{ID: "C11", Level: "other", Run: runC11,
-		Explanation: "Decides, on every path of entry/fetcher.go's worker loop: (R-C11.1) each fetch worker, on every path to its exit, releases its semaphore slot before it touches the process mutex, then — holding the mutex — decrements the in-progress counter and signals the condition variable; every go start follows a successful slot acquisition and is followed by the counter increment; (R-C11.2) every condition wait holds the cond's Locker and sits in a loop re-reading guarded state; (R-C11.3) the only queue insertion is dominated by the negative result of the exclude gate for the same hash and followed on all paths by marking that hash in the task cache; (R-C11.4) task cache, clock window and the worker-shared locals are only touched under the process mutex; (R-C11.5) the deadline-carrying context is the one passed down to every blocking call (no fresh background context anywhere on the fetch path) and its cancel is deferred; (R-C11.6) a failed fetch has no path that skips the accounting. A lost decrement or a slot held while waiting for the mutex is a hang for some fault sequence. Not covered: exactness of the returned set, behaviour of the block store under cancellation.",
+		Explanation: "Decides, on every path of entry/fetcher.go's worker loop: (R-C11.1) each fetch worker, on every path to its exit, releases its semaphore slot before it touches the process mutex, then — holding the mutex — decrements the in-progress counter and signals the condition variable; every go start follows a successful slot acquisition and is followed by the counter increment; (R-C11.2) every condition wait holds the cond's Locker and sits in a loop re-reading guarded state; (R-C11.3) the only queue insertion is dominated by the negative result of the exclude gate for the same hash and followed on all paths by marking that hash in the task cache; (R-C11.4) task cache, clock window and the worker-shared locals are only touched under the process mutex; (R-C11.5) the deadline-carrying context is the one passed down to every blocking call (no fresh background context anywhere on the fetch path) and its cancel is deferred; (R-C11.6) a failed fetch has no path that skips the accounting. A lost decrement or a slot held while waiting for the mutex is a hang for some fault sequence. (R-C11.15) every operation on the slot semaphore moves the same positive weight; (R-C11.16) every test of the in-flight counter or the queue length in the dispatcher separates zero from the positive values and the counter starts at zero; (R-C11.12) the fetch starts with a deadline derived from a timeout known to be positive, or with a timeout known to be ≤ 0. Not covered: exactness of the returned set, behaviour of the block store under cancellation.",
 	})
 }
 
